@@ -42,7 +42,7 @@ RETS = ["none", "true", "false", "cont", "halt", "remove", "haltremove"]
 # 1 look like False and True
 PLAIN_RETS = {"zero": 0, "one": 1, "fzero": 0.0, "fone": 1.0, "text": "ok",
               "empty": "", "two": 2}
-PRIOS = [0, 5, -1, 0]
+PRIOS = [0, 5, -1, 0, 0, 5, 0.5, 1.5, 1.2, 1.9, -0.5, 4.5, 10 ** 12]   # (any number is a priority: fractions order between the integers)
 
 
 class ScriptedAbort (BaseException):
